@@ -145,6 +145,16 @@ class Producer(object):
         self._item_source = item_source
         self._item_queue = item_queue
         self._running = False
+        self._started = False
+
+    def start(self):
+        '''Mark the producer as running before :meth:`process` gets to run.
+
+        A :meth:`stop` between this call and the first step of
+        :meth:`process` is then not lost.
+        '''
+        self._running = True
+        self._started = True
 
     @asyncio.coroutine
     def process_one(self):
@@ -157,7 +167,10 @@ class Producer(object):
 
     @asyncio.coroutine
     def process(self):
-        self._running = True
+        if not self._started:
+            self._running = True
+
+        self._started = False
 
         while self._running:
             item = yield from self.process_one()
@@ -204,6 +217,7 @@ class Pipeline(object):
     def process(self):
         if self._state == PipelineState.stopped:
             self._state = PipelineState.running
+            self._producer.start()
             self._producer_task = asyncio.get_event_loop().create_task(self._run_producer_wrapper())
             self._unpaused_event.set()
 
